@@ -309,7 +309,11 @@ macro_rules! send_data {
 
             if $segment_iter_item.seq_nr() > $self.last_sent_seq_nr {
                 $self.last_sent_seq_nr = $segment_iter_item.seq_nr();
-                $self.seq_nr = $segment_iter_item.seq_nr() + 1;
+                // last_sent_seq_nr is rewound on RTO; the next sequence number to use
+                // must never move backwards with it.
+                if $self.seq_nr < $segment_iter_item.seq_nr() + 1 {
+                    $self.seq_nr = $segment_iter_item.seq_nr() + 1;
+                }
             }
 
             // rfc6298 5.1
@@ -1190,6 +1194,14 @@ impl<T: Transport, Env: UtpEnvironment> VirtualSocket<T, Env> {
             }
 
             trace!(?result.on_ack_result, "removed ACKed tx messages");
+
+            // An RTO rewinds last_sent_seq_nr. A cumulative ACK (e.g. covering segments the
+            // receiver was holding out of order) can then move past it: everything below
+            // SND.UNA has been sent and acknowledged.
+            let acked_up_to = self.user_tx_segments.snd_una() - 1;
+            if self.last_sent_seq_nr < acked_up_to {
+                self.last_sent_seq_nr = acked_up_to;
+            }
         }
 
         if let Some(rec) = self.recovery.recovering_mut() {
